@@ -356,7 +356,7 @@ def run_property(pid, tier, keep=False, seed=0):
                         cex = None
                         log('note: witness search failed: %s' % e)
                 change = None
-                if cex is None and r['unit'].startswith('memfs_') and not os.environ.get('VERIF_NO_KANI_CEX'):
+                if cex is None and r['unit'].startswith(('memfs_', 'entries_', 'entry_')) and not os.environ.get('VERIF_NO_KANI_CEX'):
                     try:
                         import fsdiff
                         change = fsdiff.find(REPO, ob['fn'])
